@@ -2001,3 +2001,6 @@ mod tests {
         Ok(())
     }
 }
+
+#[cfg(feature = "verif-hooks")]
+pub mod verif_c14;
